@@ -44,9 +44,11 @@ inductive Step (cfg : Cfg) (st : St) (i : Nat) : Act → St → Ev → Prop
       Step cfg st i (.step b)
         (setT (setS st s { getS st s with refs := (getS st s).refs - 1 }) i .idle) .ret
   | retire (b : Bool) (s : Nat) (hi : st.ths[i]? = some (.closeRetire s)) :
+      Step cfg st i (.step b) (setT { st with live := st.live.erase s } i (.closeRetire2 s)) .parked
+  | retire2 (b : Bool) (s : Nat) (hi : st.ths[i]? = some (.closeRetire2 s)) :
       Step cfg st i (.step b)
         (setT { setS st s { getS st s with retired := (getS st s).retired + 1 } with
-                  live := st.live.erase s, dead := dinsert s st.dead } i .closeGC) .parked
+                  dead := dinsert s st.dead } i .closeGC) .parked
   | closeGC (b : Bool) (hi : st.ths[i]? = some .closeGC) :
       Step cfg st i (.step b) (setT st i .gcTryLock) .parked
   | tryLockFail (b : Bool) (hi : st.ths[i]? = some .gcTryLock) (hf : st.flag = true) :
@@ -138,6 +140,7 @@ theorem step_sound {cfg : Cfg} {st st' : St} {i : Nat} {a : Act} {ev : Ev}
         simp at hs; obtain ⟨rfl, rfl⟩ := hs
         exact .decRet _ _ hi hz
     · simp at hs; obtain ⟨rfl, rfl⟩ := hs; exact .retire _ _ hi
+    · simp at hs; obtain ⟨rfl, rfl⟩ := hs; exact .retire2 _ _ hi
     · simp at hs; obtain ⟨rfl, rfl⟩ := hs; exact .closeGC _ hi
     · -- GC_TRY_LOCK
       split at hs
